@@ -78,7 +78,19 @@ func prepareScratch(id, tier string, progs []hgen.Program) (*scratchCtx, int) {
 	sem := make(chan struct{}, 12)
 	okPkgs := map[string]bool{}
 	for _, p := range progs {
+		if p.NoGombok {
+			pd := filepath.Join(dir, p.Pkg)
+			os.MkdirAll(pd, 0o755)
+			for n, b := range p.Files {
+				os.WriteFile(filepath.Join(pd, n), b, 0o644)
+			}
+		}
+	}
+	for _, p := range progs {
 		p := p
+		if p.NoGombok {
+			continue
+		}
 		wg.Add(1)
 		go func() {
 			defer wg.Done()
